@@ -152,7 +152,7 @@ def _load_func(moddir):
     path = os.path.join(moddir, "wl_mod.py")
     m = types.ModuleType("wl_mod")
     m.__file__ = path
-    exec(compile(open(path).read(), path, "exec"), m.__dict__)
+    exec(compile(open(path, encoding="utf-8").read(), path, "exec"), m.__dict__)
     return m
 
 
